@@ -1093,6 +1093,8 @@ func c19Oracle(c *oracleCtx) {
 		{"Clear", func(l List) any { return l.Clear() }}, {"SortUnsorted", func(l List) any { return l.Sort() }},
 		{"SortSorted", func(l List) any { return l.Sort().Sort() }}, {"SortSingle", func(l List) any { return l.Clear().Add(1).Sort() }},
 		{"SortStrings", func(l List) any { return l.Clear().Add("b", "a").Sort() }}, {"SortFloats", func(l List) any { return l.Clear().Add(1.5, 0.5).Sort() }},
+		{"SortMixedIntFirst", func(l List) any { return l.Clear().Add(2, 1.5, 1).Sort() }}, {"SortMixedFloatFirst", func(l List) any { return l.Clear().Add(2.5, 1, 0.5, 3).Sort() }},
+		{"SortWithIgnored", func(l List) any { return l.Clear().Add("b", 1, nil, "a", true).Sort() }}, {"SortEqualNumbers", func(l List) any { return l.Clear().Add(1, 1.0, 1).Sort() }},
 		{"Reverse", func(l List) any { return l.Reverse() }}, {"Reverse1", func(l List) any { return l.Clear().Add(1).Reverse() }},
 		{"ForEach", func(l List) any { return l.ForEach(noop) }}, {"ForEachValue", func(l List) any { return l.ForEachValue(func(any) {}) }},
 		{"ForEachObject", func(l List) any { return l.ForEachObject(func(Object) {}) }}, {"ForEachList", func(l List) any { return l.ForEachList(func(List) {}) }},
@@ -1205,6 +1207,36 @@ func c19Oracle(c *oracleCtx) {
 		return ""
 	})
 	everyStorePath(c)
+	c.check("identity-after-panic", true, func() string {
+		// a rejected call (recovered by the caller) leaves the registration alone: afterwards every fluent method and every
+		// retrieval still hands back the registered outer value
+		for depth := 1; depth <= 2; depth++ {
+			var do Object = newDObject("a", 1, "b", "x")
+			var dl List = newDList(3, 1, 2)
+			if depth == 2 {
+				do, dl = newDDObject("a", 1, "b", "x"), newDDListInnerFirst(3, 1, 2)
+			}
+			holderL, holderO := NewList(do, dl), NewObject("o", do, "l", dl)
+			for i, f := range []func(){
+				func() { do.Set("p", 1, 5, 2) }, func() { do.Set("p", 1, "q", struct{}{}) }, func() { do.Set("p", 1, "q", 2, "odd") }, func() { do.Set("only") },
+				func() { do.SetTF(".a.b.c", 1) }, func() { do.SetTF("bad", 1) }, func() { do.UnsetTF(".zz.y") }, func() { do.Pluck("a", "missing") }, func() { do.Merge(nil) }, func() { do.GetList("a") },
+				func() { dl.Add(1, struct{}{}, 2) }, func() { dl.Insert(99, 1) }, func() { dl.Insert(0, struct{}{}) }, func() { dl.Replace(99, 1) }, func() { dl.Delete(0, 99) }, func() { dl.Delete(-1) },
+				func() { dl.SetTF("#x", 1) }, func() { dl.UnsetTF("#99") }, func() { dl.SubList(2, 1) }, func() { dl.GetObject(0) }, func() { dl.Concat(nil) },
+			} {
+				catch(f)
+				if do.Ego() != do || do.Set("z", i) != do || do.Unset("z") != do || do.ForEachInt(func(int) {}) != do || do.SetTF(".t", 1) != do || do.UnsetTF(".t") != do {
+					return fmt.Sprintf("depth %d: after rejected call #%d the fluent methods of the derived object no longer return the registered value", depth, i)
+				}
+				if dl.Ego() != dl || dl.Add(0) != dl || dl.Delete(dl.Count()-1) != dl || dl.Reverse() != dl || dl.ForEachInt(func(int) {}) != dl || dl.SetTF("#0", 1) != dl {
+					return fmt.Sprintf("depth %d: after rejected call #%d the fluent methods of the derived list no longer return the registered value", depth, i)
+				}
+				if holderL.Get(0) != any(do) || holderL.GetList(1) != dl || holderO.GetObject("o") != do || holderO.Get("l") != any(dl) || holderO.GetTF(".o") != any(do) {
+					return fmt.Sprintf("depth %d: after rejected call #%d a holder hands back another value", depth, i)
+				}
+			}
+		}
+		return ""
+	})
 	c.check("retrieval:listof", true, func() string {
 		dl, do := newDList(1), newDObject("k", 1)
 		for n := 1; n <= 3; n++ {
